@@ -8,6 +8,8 @@ The log must equal ``reference_schedule`` (harness/_util_C15.py), which is writt
 All schedule inputs are discrete, so each path ends in a comparison of two concrete event lists; the symbolic part
 is the *choice* of configuration (every flag / count is a solver variable that the run forks on).
 """
+import numpy
+
 from symx.core import AND, OR, NOT, ITE
 from symx.engine import harness
 
@@ -54,7 +56,8 @@ def _run(cs, start, specs, answers=(), extra=None):
     pool = [list(answers), [0]]
     for s in specs:
         cls = DbRec if s.isDb else Rec
-        i = cls(r, cs, log, s.name, function=("f_" + s.name), haltCycle=s.haltCycle, convPool=pool, extra=extra)
+        i = cls(r, cs, log, s.name, function=("f_" + s.name), haltCycle=s.haltCycle, convPool=pool, extra=extra,
+                haltValue=s.haltValue, idleValue=s.idleValue, restartAt=s.restartAt)
         o.addInterface(i, reverseAtEOL=s.reverse, enabled=s.enabled, bolForce=s.bolForce)
     o.operate()
     return o, r, log
@@ -152,6 +155,98 @@ def restart_point_and_halt_request(ctx, n, maxM, haltPos):
                   nums == list(range(nums[0], nums[0] + len(nums))) and
                   nums[-1] == sum(m + 1 for m in ms) - 1 and
                   [getCycleNodeFromCumulativeNode(x, cs) for x in nums] == visited)
+
+
+# ---------------------------------------------------------------------------------------------------------------
+
+BOLRESTART_QUICK = [dict(n=2, maxM=1, setPos=0), dict(n=3, maxM=1, setPos=1), dict(n=2, maxM=2, setPos=2)]
+BOLRESTART_THOROUGH = [dict(n=3, maxM=2, setPos=p) for p in (0, 1, 2)] + [dict(n=4, maxM=1, setPos=1)]
+
+
+@harness("C15", bounds="restart point established DURING beginning-of-life: the reactor enters the run at (0,0) and "
+                       "one of 3 interfaces (position enumerated; symbolic: regular, or disabled-but-forced-at-BOL) "
+                       "moves it to a symbolic (cycle, node) over every existing node while it handles BOL (what "
+                       "MainInterface does for loadStyle=fromDB); 2..3 cycles x 0..2 burn steps (symbolic); a second "
+                       "interface asks to halt at a symbolic cycle (or never)", stubs=STUBS, max_paths=20000,
+         instances={"quick": BOLRESTART_QUICK, "thorough": BOLRESTART_THOROUGH})
+def restart_point_set_by_an_interface_during_bol(ctx, n, maxM, setPos):
+    ms = _layout(ctx, n, maxM)
+    sc = pick(ctx.int("startCycle", 0, n - 1), 0, n - 1)
+    sn = pick(ctx.int("startNode", 0, maxM), 0, maxM)
+    ctx.assume(sn <= ms[sc])                      # the restart point is a node of the history
+    forcedOnly = flag(ctx.bool("setterOnlyForcedAtBOL"))
+    h = pick(ctx.int("haltCycle", -1, n - 1), -1, n - 1)   # -1: never
+    specs = [IfaceSpec("A"), IfaceSpec("B"), IfaceSpec("C", reverse=True)]
+    specs[setPos].restartAt = (sc, sn)
+    if forcedOnly:
+        specs[setPos].enabled, specs[setPos].bolForce = False, True
+    specs[(setPos + 1) % 3].haltCycle = h if h >= 0 else None
+    cs = UT.mk_cs(nCycles=n, cycles=_cycles(ms), power=1.0e6, burnSteps=None)
+    o, r, got = _run(cs, (0, 0), specs)
+    want = reference_schedule(ms, (0, 0), specs)
+    _compare(ctx, got, want, canary_hit=(sc == n - 1 and sn == 1 and forcedOnly and h < 0))
+    later = [s.name for s in specs if s.enabled]
+    probe = later[-1]
+    ctx.check("interfaces after the one that sets the restart point see it already at beginning-of-life",
+              all((e[3], e[4]) == ((0, 0) if k <= setPos else (sc, sn))
+                  for k, e in enumerate(x for x in got if x[0] == "BOL")))
+    begun = [e[3] for e in got if e[0] == "BOC" and e[1] == probe]
+    halted = h >= sc
+    ctx.check("the first cycle begun is the restart cycle; no earlier cycle is revisited",
+              begun == list(range(sc, (h if halted else n - 1) + 1)))
+    if not halted:
+        visited = [(e[3], e[4]) for e in got if e[0] == "EveryNode" and e[1] == probe]
+        ctx.check("every node from the restart point to the end is visited once, in order",
+                  visited == [(c, k) for c in range(sc, n) for k in range(sn if c == sc else 0, ms[c] + 1)])
+        ctx.check("the run ends in the last node of the last cycle", (r.p.cycle, r.p.timeNode) == (n - 1, ms[-1]))
+
+
+# ---------------------------------------------------------------------------------------------------------------
+
+# what a beginning-of-cycle hook may hand back, and whether it asks for a halt: a hook asks by returning a true
+# value - typically the outcome of a comparison, which on numpy / parameter values is a numpy.bool_, or a flag kept
+# as an int or a reason string -; returning nothing (None) or a false value of any type does not.
+HOOK_RETURNS = [(True, True), (numpy.bool_(True), True), (1, True), ("halt", True),
+                (False, False), (None, False), (0, False), (numpy.bool_(False), False)]
+IDLE_RETURNS = [r for r, asks in HOOK_RETURNS if not asks]
+
+HALTTYPE_QUICK = [dict(n=2, maxM=1, haltPos=0), dict(n=2, maxM=1, haltPos=2), dict(n=3, maxM=0, haltPos=1)]
+HALTTYPE_THOROUGH = [dict(n=3, maxM=1, haltPos=p) for p in (0, 1, 2)]
+
+
+@harness("C15", bounds="TYPE of the value a beginning-of-cycle hook returns: one of 3 interfaces (position "
+                       "enumerated) returns, at a symbolic cycle, a symbolic choice of True / numpy.bool_(True) / 1 / "
+                       "'halt' (halt requests) / False / None / 0 / numpy.bool_(False) (no request); in every other "
+                       "cycle it - and in every cycle the interface next to it - returns a symbolic choice of the "
+                       "four non-requests; 2..3 cycles x 0..1 burn steps (symbolic)", stubs=STUBS, max_paths=20000,
+         instances={"quick": HALTTYPE_QUICK, "thorough": HALTTYPE_THOROUGH})
+def halt_request_of_any_truthy_type_stops_the_loop(ctx, n, maxM, haltPos):
+    ms = _layout(ctx, n, maxM)
+    h = pick(ctx.int("haltCycle", 0, n - 1), 0, n - 1)
+    kind = pick(ctx.int("returnKind", 0, len(HOOK_RETURNS) - 1), 0, len(HOOK_RETURNS) - 1)
+    idle = pick(ctx.int("idleReturnKind", 0, len(IDLE_RETURNS) - 1), 0, len(IDLE_RETURNS) - 1)
+    value, asks = HOOK_RETURNS[kind]
+    specs = [IfaceSpec("A", reverse=True), IfaceSpec("B"), IfaceSpec("C")]
+    specs[haltPos].haltCycle, specs[haltPos].haltValue, specs[haltPos].haltRequested = h, value, asks
+    specs[haltPos].idleValue = IDLE_RETURNS[idle]
+    other = specs[(haltPos + 1) % 3]            # never asks, whatever the type of what it returns
+    other.haltCycle, other.haltValue, other.haltRequested, other.idleValue = 0, IDLE_RETURNS[idle], False, \
+        IDLE_RETURNS[(idle + 1) % len(IDLE_RETURNS)]
+    cs = UT.mk_cs(nCycles=n, cycles=_cycles(ms), power=1.0e6, burnSteps=None)
+    o, r, got = _run(cs, (0, 0), specs)
+    want = reference_schedule(ms, (0, 0), specs)
+    _compare(ctx, got, want, canary_hit=(kind == 1 and idle == 3 and h == n - 1))
+    begun = [e[3] for e in got if e[0] == "BOC" and e[1] == "B"]
+    ctx.check("a halt request of any type stops the loop at that cycle; a non-request of any type does not",
+              begun == list(range(0, (h if asks else n - 1) + 1)))
+    ctx.check("every interface still gets the beginning-of-cycle call of the halted cycle",
+              [e[1] for e in got if e[0] == "BOC" and e[3] == h] == ["A", "B", "C"])
+    ctx.check("no node of a cycle at or after the halted one is run",
+              all(e[3] < h for e in got if e[0] in ("EveryNode", "EOC")) if asks else
+              [(e[3], e[4]) for e in got if e[0] == "EveryNode" and e[1] == "B"] ==
+              [(c, k) for c in range(n) for k in range(ms[c] + 1)])
+    ctx.check("end-of-life runs exactly once for every interface, also after a halt",
+              sorted(e[1] for e in got if e[0] == "EOL") == ["A", "B", "C"])
 
 
 # ---------------------------------------------------------------------------------------------------------------
